@@ -1,5 +1,17 @@
 (* C07 — a trajectory store is an append-only list: indices follow insertion order, across sessions and
    cache evictions.  Property theorems only; each is closed by [exact] of a lemma of proofs/Store_*.v. *)
+(* Scope of the model these theorems are about (shared by C07 C08 C09 C10):
+   - ONE live TrajectoryStore handle at a time; a merge runs with no handle open;
+   - the refinement theorem is about worlds whose file system holds store files only ([Inv]: no merged directory
+     elsewhere); merged directories are covered by the merge / merged-read theorems (C09, C10);
+   - a fault is an exception raised IN FRONT of a file-system call (the call has no effect); os.rename is atomic and
+     stays on one device; a crash inside rename / json.dump is not modelled;
+   - payloads are reduced to a tag, a flight id, the identity of the field sets and a size; the contents of the other
+     fields are C03's subject. *)
+(* "Regardless of how small the in-memory cache is": in the specification neither reads nor additions to a FILE-BACKED
+   store depend on the cache capacity; only an in-memory store may refuse for lack of room (EFull, or ETooLarge for a
+   trajectory larger than the whole store).  The code as found refused both reads (FC07a) and file-backed additions
+   (FC07b) of a trajectory larger than the cache: C07_oversized_read_before_fix_refuted, C07_oversized_add_before_fix_refuted. *)
 From Coq Require Import ZArith List Bool.
 From AV Require Import model.Store_Model proofs.Store_Proofs proofs.Store_Refine proofs.Store_Corollaries.
 Import ListNotations.
